@@ -121,14 +121,14 @@ P["C08"] = {
 P["C09"] = {
     "common": {"validate": 6, "runs": [{"pattern": "verifHarness_C09_", "label_filter": "C09:"}]},
     "thorough": {"validate": 16},
-    "bounds": "(1) inductive step: from an ARBITRARY encoder state satisfying the invariant (count c in [0,2^40), 0..3 buffered bytes of arbitrary content in a buffer of capacity exact/600/5000, block size B >= 0 arbitrary, nothing buffered iff c == 0, buffered < B when c > 0) one Encode (record of 3-4 bytes) or one Flush: emitted bytes are nothing or exactly one block with count c(+1), payload = buffer (+ record) after decompression, followed by the sync marker; emitted iff (Encode and size reached) or (Flush and c > 0); invariant re-established; all three codecs - histories of any length follow by induction. (2) every history of 1..3 (thorough 1..4) encode/flush calls from a fresh encoder, block size in {0,4,7,100}, checked after every call with a reference block parser",
+    "bounds": "(1) inductive step: from an ARBITRARY encoder state satisfying the invariant (count c in [0,2^40), 0..3 buffered bytes of arbitrary content in a buffer of capacity exact/600/5000, block size B >= 0 arbitrary, nothing buffered iff c == 0, buffered < B when c > 0) one Encode (record of 3-4 bytes) or one Flush: emitted bytes are nothing or exactly one block with count c(+1), payload = buffer (+ record) after decompression, followed by the sync marker; emitted iff (Encode and size reached) or (Flush and c > 0); invariant re-established; all three codecs - histories of any length follow by induction. (2) every history of 1..3 (thorough 1..4) encode/flush calls from a fresh encoder, block size in {0,4,7,100}, checked after every call with a reference block parser; the same histories with records whose encoding is empty (a struct without fields: 'records pending' differs from 'bytes buffered'), block size in {0,100}. The inductive step (1) assumes the invariant 'nothing buffered iff no record pending', which holds only for records of at least one byte; empty records are covered by the histories only",
     "outside": "buffers of more than 3 bytes in the step pre-state (the code never looks at buffer contents)",
     "assumptions": A_CORE + A_FILE,
 }
 P["C10"] = {
     "common": {"validate": 6, "runs": [{"pattern": "verifHarness_C10_", "label_filter": "C10:"}]},
     "thorough": {"validate": 16},
-    "bounds": "(1) allocator step from arbitrary bank states: see harness C10_bank_step (<= 2 type arenas with symbolic fill levels, string store with symbolic length, one Alloc / ToString / Close / Extract with arbitrary arguments): returned block inside a typed array, zeroed, disjoint from every live allocation; earlier strings never rewritten. (2) retained records: 3-block files of every codec, records {string of 2 or 130 bytes, []byte, *int64, []string, map[string]string} with symbolic contents; each callback value is retained, the first record's bank is optionally closed while reading continues (so it may be recycled for the third record through the pool, both pool outcomes explored); at the end every retained record whose bank is open still holds its values and no string/bytes pointer leads into the reader's buffers",
+    "bounds": "(1) allocator step from arbitrary bank states: see harness C10_bank_step (<= 2 type arenas with symbolic fill levels, string store with symbolic length, one Alloc / ToString / Close / Extract with arbitrary arguments): returned block inside a typed array, zeroed, disjoint from every live allocation; earlier strings never rewritten. (2) retained records: 3-block files of every codec, records {string of 2 or 130 bytes, []byte, *int64, []string, map[string]string} with symbolic contents; each callback value is retained, optionally preceded by a reader of the same file that stopped at its first record (its callback released the bank and returned an error); then one of: no bank closed, the first or the second record's bank closed when the next record arrives, every record but the first releasing its own bank inside its callback (a released bank may be recycled for a later record through the pool, every pool outcome explored); asserted: a bank whose record is still live is never handed to another callback, at the end every retained record whose bank is open still holds its values and no string/bytes pointer leads into the reader's buffers. (3) bank histories from a fresh bank: 8 orders of 7 allocations over 4 types (the type table grows while blocks are live), optionally Close and 4 more: every block zeroed, pairwise disjoint, none handed out twice",
     "outside": "the Go allocator and collector themselves; more than 3 records; bank states with more than 2 type arenas",
     "assumptions": A_CORE + A_FILE,
 }
